@@ -2,6 +2,7 @@ package main
 
 import (
 	"fmt"
+	"go/constant"
 	"go/token"
 
 	"golang.org/x/tools/go/ssa"
@@ -10,9 +11,9 @@ import (
 func init() { register("C25", propC25) }
 
 func propC25(c *Check) {
-	c.Explain = "Decides the exact-sum and share clauses of mint construction only: in buildUniversalMintTransaction (1) the mint input carries the batch amount returned by checkUniversalMintPossibility; (2) every kernel-node output of amount m.Work is paired, in the same iteration, with total = total.Add(m.Work) (accumulator shape: no output without accounting); (3) the custodian output of amount safe = amount.Div(10).Mul(4) is followed by total = total.Add(safe); (4) the last output's amount is amount.Sub(total) for that final total, so the outputs sum to the batch amount by construction, and there are exactly these three output sites; (5) the kernel share handed to distributeKernelMintByWorks is amount.Div(10).Mul(5) (five tenths, rounded down per tenth); (6) both 'total > amount => panic' assertions remain; (7) mintMultiBatchesSize is the accumulator of mintBatchSize(i) over i = old+1 .. batch (inclusive), panicking when old >= batch; (8) distributeKernelMintByWorks: the per-node clamp of the work against avg*7 / avg / avg/7 is interpreted from its SSA fragment with an exact-integer model and is non-decreasing in the raw work for avg 1..40, w 0..45*avg+10, and the final share is work.Ration(totalW).Product(base) with one totalW and base for all nodes."
-	c.NotCov = "NOT DECIDED (numeric facts over all batches / work vectors): monotone non-increase of batch sizes, the pool bound, positivity of every share; work-monotonicity is decided for the clamp (finite evaluation, avg 1..40) and the order-preserving shape of the final share, not for the big-integer rounding of Ration/Product."
-	c.Floor(9)
+	c.Explain = "Decides the exact-sum and share clauses of mint construction only: in buildUniversalMintTransaction (1) the mint input carries the batch amount returned by checkUniversalMintPossibility; (2) every kernel-node output of amount m.Work is paired, in the same iteration, with total = total.Add(m.Work) (accumulator shape: no output without accounting); (3) the custodian output of amount safe = amount.Div(10).Mul(4) is followed by total = total.Add(safe); (4) the last output's amount is amount.Sub(total) for that final total, so the outputs sum to the batch amount by construction, and there are exactly these three output sites; (5) the kernel share handed to distributeKernelMintByWorks is amount.Div(10).Mul(5) (five tenths, rounded down per tenth); (6) both 'total > amount => panic' assertions remain; (7) mintMultiBatchesSize is the accumulator of mintBatchSize(i) over i = old+1 .. batch (inclusive), panicking when old >= batch; (8) distributeKernelMintByWorks: the per-node clamp of the work against avg*7 / avg / avg/7 is interpreted from its SSA fragment with an exact-integer model and is non-decreasing in the raw work for avg 1..40, w 0..45*avg+10, and the final share is work.Ration(totalW).Product(base) with one totalW and base for all nodes; (9) mintBatchSize: the pool is seeded with MintPool, every elapsed year (i = 0 .. batch/D - 1) performs pool = pool.Sub(MintYearPercent.Product(pool)), the result is MintYearPercent.Product(pool).Div(D) with the same constant D, MintYearPercent = NewInteger(a).Ration(NewInteger(b)) with 0 <= a <= b and MintPool > 0 are stored only by the package initialiser: hence batch sizes never increase and D batches of a year spend at most that year's reduction of the pool (telescoping bound by MintPool)."
+	c.NotCov = "NOT DECIDED (numeric facts over all batches / work vectors): positivity of every share; monotone non-increase of batch sizes and the pool bound are decided only through the shape of mintBatchSize (rule 9), assuming RationalNumber.Product and Integer.Div are monotone in their first argument; work-monotonicity is decided for the clamp (finite evaluation, avg 1..40) and the order-preserving shape of the final share, not for the big-integer rounding of Ration/Product."
+	c.Floor(15)
 	f := c.F("(*kernel.Node).buildUniversalMintTransaction")
 	if f != nil {
 		poss := Call("(*kernel.Node).checkUniversalMintPossibility", Param("node"), Param("timestamp"), Param("validateOnly"))
@@ -99,6 +100,113 @@ func propC25(c *Check) {
 		}
 		c.Require(oki, "shape", shortName(g)+"|range old+1..batch", "i runs from old+1 to batch inclusive in steps of one", "loop bounds changed")
 		c.MustPass(g, Gate{Name: "old >= batch => panic", RejectOnTrue: true, Cond: Bin(token.GEQ, Param("old"), Param("batch"))}, acceptReturns(g), "returning a multi-batch amount")
+	}
+	// ---- schedule shape of mintBatchSize: with p = MintYearPercent = a/b, 0 <= a <= b, and D the one
+	// year-length constant, pool_{k+1} = pool_k - floor(p*pool_k) lies in [0, pool_k]; the batch
+	// size floor(floor(p*pool_k)/D) with k = batch/D is therefore non-increasing in batch, and D
+	// batches of year k spend at most floor(p*pool_k) = pool_k - pool_{k+1}, which telescopes to
+	// at most MintPool. Each premise of that argument is a shape read from the SSA below.
+	if g := c.F("kernel.mintBatchSize"); g != nil {
+		percent := Global("MintYearPercent")
+		var yearDiv, dayDiv int64 = -1, -2
+		constOf := func(v ssa.Value) int64 {
+			if k, ok := v.(*ssa.Const); ok && k.Value != nil && k.Value.Kind() == constant.Int {
+				if x, exact := constant.Int64Val(k.Value); exact {
+					return x
+				}
+			}
+			return -3
+		}
+		years := func(v ssa.Value) bool {
+			for {
+				if cv, ok := v.(*ssa.Convert); ok {
+					v = cv.X
+					continue
+				}
+				break
+			}
+			b, ok := v.(*ssa.BinOp)
+			if !ok || b.Op != token.QUO || !Param("batch")(b.X) {
+				return false
+			}
+			yearDiv = constOf(b.Y)
+			return yearDiv > 0
+		}
+		lp := c.ForLoop(g, "years", Bin(token.LSS, PhiNamed("i"), years))
+		c.Accumulator(g, lp, "pool", func(self VM) VM {
+			return Call("(common.Integer).Sub", self, Call("(common.RationalNumber).Product", percent, self))
+		}, "pool = pool.Sub(MintYearPercent.Product(pool))")
+		okInit, okStep := false, false
+		var poolPhi *ssa.Phi
+		if lp != nil {
+			for _, ins := range lp.Header.Instrs {
+				p, ok := ins.(*ssa.Phi)
+				if !ok {
+					continue
+				}
+				for k, ed := range p.Edges {
+					entry := !lp.Header.Dominates(lp.Header.Preds[k])
+					switch {
+					case phiIs(p, "pool") && entry:
+						poolPhi = p
+						okInit = Global("MintPool")(ed)
+					case phiIs(p, "i") && entry:
+						okStep = ConstInt(0)(ed)
+					case phiIs(p, "i"):
+						okStep = okStep && Bin(token.ADD, Is(p), ConstInt(1))(ed)
+					}
+				}
+			}
+		}
+		c.Require(okInit, "shape", shortName(g)+"|pool starts at MintPool", "the running pool is seeded with MintPool", "seed changed")
+		c.Require(okStep, "shape", shortName(g)+"|one reduction per elapsed year", "the year index runs 0, 1, .. batch/D - 1 in steps of one (the number of reductions is non-decreasing in batch)", "loop counter changed")
+		okRet := poolPhi != nil
+		rets := allReturns(g)
+		for _, r := range rets {
+			v := retValue(r, 0)
+			cl, ok := v.(*ssa.Call)
+			if !ok || !Call("(common.Integer).Div", Call("(common.RationalNumber).Product", percent, Is(poolPhi)), AnyV)(cl) {
+				okRet = false
+				continue
+			}
+			dayDiv = constOf(cl.Call.Args[1])
+		}
+		c.Require(okRet && len(rets) == 1, "shape", shortName(g)+"|batch = percent*pool/D", "the batch size is MintYearPercent.Product(pool).Div(D) of the pool left after the reductions (monotone in the pool)", "return expression changed")
+		c.Require(yearDiv > 0 && yearDiv == dayDiv, "agreement", shortName(g)+"|year length == daily divisor", "the constant dividing the batch number into years equals the constant dividing the yearly amount into batches (D batches spend at most one yearly amount, so the cumulative total telescopes below the pool)", fmt.Sprintf("year length %d, daily divisor %d", yearDiv, dayDiv))
+		// the constants: MintYearPercent = NewInteger(a).Ration(NewInteger(b)) with 0 <= a <= b, stored
+		// only by the package initialiser; MintPool likewise stored only there.
+		okPct, stores := false, 0
+		for _, fn := range append(c.W.ModuleFuncs(), g.Pkg.Func("init")) {
+			if fn == nil {
+				continue
+			}
+			eachInstr(fn, func(b *ssa.BasicBlock, ins ssa.Instruction) {
+				st, ok := ins.(*ssa.Store)
+				if !ok {
+					return
+				}
+				gl, ok := st.Addr.(*ssa.Global)
+				if !ok || gl.Pkg != g.Pkg || (gl.Name() != "MintYearPercent" && gl.Name() != "MintPool") {
+					return
+				}
+				c.Sites++
+				if fn != g.Pkg.Func("init") {
+					stores += 100
+					return
+				}
+				stores++
+				if gl.Name() == "MintYearPercent" {
+					if cl, ok := st.Val.(*ssa.Call); ok && Call("(common.Integer).Ration", Call("common.NewInteger", AnyV), Call("common.NewInteger", AnyV))(cl) {
+						a := constOf(cl.Call.Args[0].(*ssa.Call).Call.Args[0])
+						bb := constOf(cl.Call.Args[1].(*ssa.Call).Call.Args[0])
+						okPct = a >= 0 && bb > 0 && a <= bb
+					}
+				} else if cl, ok := st.Val.(*ssa.Call); !ok || !Call("common.NewInteger", AnyV)(cl) || constOf(cl.Call.Args[0]) <= 0 {
+					stores += 100
+				}
+			})
+		}
+		c.Require(okPct && stores == 2, "constants", "kernel.init|MintYearPercent in [0,1], MintPool > 0, written once", "MintYearPercent is NewInteger(a).Ration(NewInteger(b)) with 0 <= a <= b and MintPool a positive NewInteger, each stored only by the package initialiser (so every yearly reduction keeps the pool in [0, previous pool])", fmt.Sprintf("okPercent=%v stores=%d", okPct, stores))
 	}
 	// ---- work-monotonicity of the normalisation in distributeKernelMintByWorks: the clamp
 	// N(w; avg) applied to each node's work is interpreted (SSA fragment of one loop iteration,
